@@ -107,6 +107,9 @@ def main(argv):
         if prop == "dev-trace":
             dev_trace(tier, seed, rest[1:])
             return
+        if prop == "replay":
+            from replay import replay
+            sys.exit(replay(rest[1]))
         if prop == "selftest":
             from selftest import selftest
             sys.exit(0 if selftest(tier, seed) else 1)
